@@ -184,7 +184,7 @@ func checkC10(c *runCtx) {
 	// two concurrent starts: exactly one wins, the other is refused, and the agent is what the winner made it
 	csExplore(c, "api-start-vs-start", b, dl, nil)
 	// the gathering paths (GatherCandidates, the gather goroutines, Restart cancelling them) under the same discipline
-	for _, n := range []string{"gather-vs-restart", "gather-vs-gather", "gather-vs-gather-vs-restart", "gather-srflx-vs-restart"} {
+	for _, n := range []string{"gather-vs-restart", "gather-vs-gather", "gather-vs-gather-vs-restart", "gather-srflx-vs-restart", "gather-vs-close", "gather-srflx-vs-close"} {
 		csExplore(c, n, b, dl, nil)
 	}
 	c10racePass(c)
@@ -541,7 +541,9 @@ func c10ownership(role string) zzmc.Scenario {
 				if dead != "" {
 					_ = a.Close()
 				}
-				return fmt.Sprintf("%d calls, %d field accesses, %s", calls, n, sel), strings.Join(reports, "; ")
+				_ = n // (the number of recorded accesses depends on how far the free-running receive loops got: not an outcome)
+
+				return fmt.Sprintf("%d calls, %s", calls, sel), strings.Join(reports, "; ")
 			}
 		},
 	}
